@@ -1,5 +1,5 @@
 (* C02 - Hook value lifecycle: explicit value, then remembered value, then computation.  ONLY statements. *)
-From PyrollLib Require Import HookMachine HookFacts.
+From PyrollLib Require Import HookMachine HookFacts HookCopy.
 
 Theorem C02_explicit_first : forall gr st o h v,
   alookup key2_eqb (dict st) (o, h) = Some v -> v <> VNone ->
@@ -49,6 +49,36 @@ Theorem C02_falsy_honoured : forall gr st o h,
   (alookup key2_eqb (dict st) (o, h) = Some (VBool false) -> read_with gr st o h = (st, Val (VBool false))).
 Proof. exact read_falsy. Qed.
 Print Assumptions C02_falsy_honoured.
+
+(* independence of instances: a shallow copy takes over the explicit and the remembered values of its source and is an instance of its own;
+   what is assigned, deleted or cleared on one instance never shows on another *)
+Theorem C02_copy_takes_over_and_is_separate : forall mro S fuel st ob src, fresh_obj st ob ->
+  let st' := fst (step mro S fuel st (CopyObj ob src)) in
+  (forall h, alookup key2_eqb (dict st') (ob, h) = alookup key2_eqb (dict st) (src, h)) /\
+  (forall h, alookup key2_eqb (cache st') (ob, h) = alookup key2_eqb (cache st) (src, h)) /\
+  (forall o h, o <> ob -> alookup key2_eqb (dict st') (o, h) = alookup key2_eqb (dict st) (o, h)) /\
+  (forall o h, o <> ob -> alookup key2_eqb (cache st') (o, h) = alookup key2_eqb (cache st) (o, h)) /\
+  cls_of st' ob = cls_of st src.
+Proof. exact copy_takes_over. Qed.
+Print Assumptions C02_copy_takes_over_and_is_separate.
+
+Theorem C02_edits_stay_on_their_instance : forall mro S fuel st ob h v o h', o <> ob ->
+  let sa := fst (step mro S fuel st (Assign ob h v)) in
+  let sd := fst (step mro S fuel st (Delete ob h)) in
+  let sc := fst (step mro S fuel st (ClearCache ob)) in
+  alookup key2_eqb (dict sa) (o, h') = alookup key2_eqb (dict st) (o, h') /\ cache sa = cache st /\
+  alookup key2_eqb (dict sd) (o, h') = alookup key2_eqb (dict st) (o, h') /\ cache sd = cache st /\
+  alookup key2_eqb (cache sc) (o, h') = alookup key2_eqb (cache st) (o, h') /\ dict sc = dict st.
+Proof. exact edits_stay_on_their_instance. Qed.
+Print Assumptions C02_edits_stay_on_their_instance.
+
+(* x := 2 * y; a.y = 5; b = copy.copy(a); b.y = 50; b.x = 100 and then a.x = 10 (computed from a's own y), not b's 100 *)
+Example C02_copy_nonvacuous :
+  snd (run (fun c => match c with 0 => [0] | _ => [] end) sem_fixed 20 init
+     [Register 0 {| i_owner := 0; i_hook := 0; i_tier := 1; i_wrapper := false; i_body := Plain (PAdd (PRead OSelf 1) (PRead OSelf 1)) |};
+      NewObj 0 0; Assign 0 1 (VInt 5); CopyObj 1 0; Assign 1 1 (VInt 50); Read 1 0; Has HasCached 0 0; Read 0 0]) =
+  [ODone; ODone; ODone; ODone; ODone; OOut (Val (VInt 100)); OOut (Val (VBool false)); OOut (Val (VInt 10))].
+Proof. vm_compute. reflexivity. Qed.
 
 Definition mro0 (c : cls) : list cls := match c with 0 => [0] | _ => [] end.
 Definition lifecycle : list op :=
